@@ -136,9 +136,14 @@ ENUM_ALPHABET = (
 )
 
 
+def opt_cases(tier: str):
+    """Cases also executed by an interpreter started with -O (see vf/optpass.py)."""
+    return drive.opt_sweep_cases(tier)
+
+
 def enumerate_cases(tier: str):
     # one event of every kind under every environment dimension (transport kind, logging, warnings, a bystander gateway, registry file, ...)
-    yield from drive.env_sweep_cases()
+    yield from drive.all_sweep_cases()
     depth = 3 if tier == "quick" else 4
     versions = VERSIONS if tier == "thorough" else ("1.5", "2.1")
     for version in versions:
@@ -175,6 +180,11 @@ def enumerate_cases(tier: str):
                 lines += [f"{node};255;0;0;17;2.1.0\n", f"{node};255;3;0;11;sketch {node}\n", f"{node};255;3;0;0;{node % 101}\n", f"{node};{child};0;0;6;c\n",
                           f"{node};{child};1;0;0;{node}.5\n", f"{node};{child};2;0;0;\n", f"{node};254;0;0;3;last\n", f"{node};0;0;0;3;first\n"]
             yield {"version": version, "registry": {}, "ops": [["rx", line] for line in lines], "mode": "steps", "listen_mode": "persistent" if start % 32 else "fresh"}
+    # a full network: every id 0-255 presents itself in ONE history, then reports (the registry holds as many nodes as there are ids)
+    for version in ("1.4", "2.2") if tier == "quick" else VERSIONS:
+        for order in (range(0, 256), range(255, -1, -1)):
+            lines = [f"{node};255;0;0;17;2.0\n" for node in order] + [f"{node};255;3;0;0;{node % 101}\n" for node in (0, 1, 253, 254, 255)] + ["254;3;0;0;6;c\n", "254;3;1;0;0;1\n", "255;255;3;0;3;\n"]
+            yield {"version": version, "registry": {}, "ops": [["rx", line] for line in lines], "mode": "steps", "listen_mode": "persistent"}
     # the gateway's version changes mid-history (firmware update, or the first report after a start): traffic of every
     # kind under the first version, the report, then traffic of every kind again (incl. types only the new version knows)
     traffic = ["4;255;0;0;17;2.0\n", "4;1;0;0;6;t\n", "4;1;1;0;0;20\n", "4;1;2;0;0;\n", "4;255;3;0;0;55\n", "4;255;3;0;11;s\n", "4;255;3;0;12;1\n", "4;255;3;0;22;7\n", "4;255;3;0;32;500\n",
